@@ -201,6 +201,8 @@ def gen_op(rng, env, maxdim):
         k = int(rng.integers(1, len(names) + 1))
         keys = [names[int(i)] for i in rng.permutation(len(names))[:k]]
         fresh = [nm for nm in ["aa", "bb", "cc", "dd", "ee"]]
+        if rng.random() < 0.4 and len(keys) > 1:
+            fresh = keys[1:] + keys[:1]          # new names that are OLD names of other axes (swap / cycle)
         d = {}
         for key, nv in zip(keys, fresh):
             usekey = names.index(key) if rng.random() < 0.3 else key
@@ -311,6 +313,156 @@ def gen_op(rng, env, maxdim):
     return None
 
 
+
+def make_cmap(a):
+    """A general CoordinateMap with the same forward/inverse functions as the integer AffineTransform a."""
+    from nipy.core.api import CoordinateMap
+    A = np.array(a.affine[:-1, :-1]); b = np.array(a.affine[:-1, -1])
+
+    def fwd(x, A=A, b=b):
+        return np.dot(x, A.T) + b
+    inv = None
+    if A.shape[0] == A.shape[1] and abs(round(np.linalg.det(A.astype(float)))) == 1:
+        Ai = np.round(np.linalg.inv(A.astype(float))).astype(A.dtype)
+        if np.array_equal(Ai.dot(A), np.eye(A.shape[0], dtype=A.dtype)):
+            def inv(y, Ai=Ai, b=b):
+                return np.dot(y - b, Ai.T)
+    return CoordinateMap(a.function_domain, a.function_range, fwd, inv)
+
+
+def cmaps(ck):
+    """General CoordinateMap: chains of reorder / rename / compose / product on a CoordinateMap whose
+    functions are those of an integer affine; compared with the Coq CMap model (vm_compute), with the
+    AffineTransform path of the implementation, and with the named-tuple semantics."""
+    from nipy.core.reference import coordinate_map as cmod
+    from nipy.core.api import AffineTransform, CoordinateSystem as CS
+    rng = ck.rng("cmaps")
+    ncases = ck.n(120, 1200)
+    terms, metas = [], []
+    for case in range(ncases):
+        a = rand_aff(rng, 4)
+        while np.dtype(a.function_domain.coord_dtype).kind != "f":   # integer-typed systems refuse float intermediates at evaluation time
+            a = rand_aff(rng, 4)
+        cm = make_cmap(a)
+        cur_c, cur_a = cm, a
+        ops = []
+        refused = False
+        for _ in range(int(rng.integers(1, 4))):
+            kind = str(rng.choice(["rdom", "rrng", "ndom", "nrng", "cleft", "cright", "prod"]))
+            nin, nout = cur_c.ndims
+            try:
+                if kind in ("rdom", "rrng"):
+                    nd = nin if kind == "rdom" else nout
+                    order = [int(v) for v in rng.permutation(nd)]
+                    if rng.random() < 0.15 and nd > 1:
+                        order[0] = order[1]
+                    cop = "%s %s" % ("CReorderDom" if kind == "rdom" else "CReorderRng", cnatl(order))
+                    f = (lambda o: o.reordered_domain(order)) if kind == "rdom" else (lambda o: o.reordered_range(order))
+                elif kind in ("ndom", "nrng"):
+                    names = list(cur_c.function_domain.coord_names if kind == "ndom" else cur_c.function_range.coord_names)
+                    keys = [names[int(i)] for i in rng.permutation(len(names))[:int(rng.integers(1, len(names) + 1))]]
+                    # include renamings whose new name is another OLD name (swaps / cycles / chains)
+                    if rng.random() < 0.5 and len(keys) > 1:
+                        vals = keys[1:] + keys[:1]
+                    else:
+                        vals = ["aa", "bb", "cc", "dd"][:len(keys)]
+                    d = dict(zip(keys, vals))
+                    cop = "%s %s" % ("CRenameDom" if kind == "ndom" else "CRenameRng",
+                                     clist(["(%s, %s)" % (cstr(k), cstr(v)) for k, v in d.items()]))
+                    f = (lambda o: o.renamed_domain(dict(d))) if kind == "ndom" else (lambda o: o.renamed_range(dict(d)))
+                elif kind in ("cleft", "cright"):
+                    other = rand_aff(rng, 3)
+                    while np.dtype(other.function_domain.coord_dtype).kind != "f":
+                        other = rand_aff(rng, 3)
+                    # make the systems match (most of the time) by building `other` on the current systems
+                    if kind == "cleft":
+                        sysd = cur_c.function_range
+                        if rng.random() < 0.25 and sysd.ndim > 1:
+                            perm = [int(v) for v in np.roll(np.arange(sysd.ndim), 1)]
+                            sysd = CS([sysd.coord_names[i] for i in perm], sysd.name, sysd.coord_dtype)   # same names, other order
+                        M = np.zeros((other.ndims[1] + 1, sysd.ndim + 1), dtype=np.int64)
+                        M[:-1, :-1] = rng.integers(-2, 3, (other.ndims[1], sysd.ndim)); M[:-1, -1] = rng.integers(-3, 4, other.ndims[1]); M[-1, -1] = 1
+                        other = AffineTransform(sysd, other.function_range, M.astype(sysd.coord_dtype))
+                        f = lambda o: cmod.compose(other, o)
+                        cop = "CComposeLeft %s" % caff(other)
+                    else:
+                        sysr = cur_c.function_domain
+                        if rng.random() < 0.25 and sysr.ndim > 1:
+                            perm = [int(v) for v in np.roll(np.arange(sysr.ndim), 1)]
+                            sysr = CS([sysr.coord_names[i] for i in perm], sysr.name, sysr.coord_dtype)
+                        M = np.zeros((sysr.ndim + 1, other.ndims[0] + 1), dtype=np.int64)
+                        M[:-1, :-1] = rng.integers(-2, 3, (sysr.ndim, other.ndims[0])); M[:-1, -1] = rng.integers(-3, 4, sysr.ndim); M[-1, -1] = 1
+                        other = AffineTransform(other.function_domain, sysr, M.astype(sysr.coord_dtype))
+                        f = lambda o: cmod.compose(o, other)
+                        cop = "CComposeRight %s" % caff(other)
+                else:
+                    other = rand_aff(rng, 2)
+                    while np.dtype(other.function_domain.coord_dtype).kind != "f":
+                        other = rand_aff(rng, 2)
+                    f = lambda o: cmod.product(o, other)
+                    cop = "CProductWith %s" % caff(other)
+            except Exception:
+                continue
+            ops.append(cop)
+            res_c = res_a = None
+            try:
+                res_c = f(cur_c)
+            except (ValueError, IndexError) as e:
+                refused = True
+            try:
+                res_a = f(cur_a)
+            except (ValueError, IndexError):
+                pass
+            if refused:
+                if res_a is not None:
+                    ck.fail("cmap/%s/refused-but-affine-path-accepts" % kind, "CoordinateMap path refuses an operation the AffineTransform path accepts",
+                            {"start": caff(a), "ops": ops})
+                break
+            if res_a is None:
+                # e.g. permuted-name systems must be refused by both paths
+                ck.fail("cmap/%s/accepted-but-affine-path-refuses" % kind,
+                        "CoordinateMap path accepts an operation the AffineTransform path refuses (systems do not match / invalid argument)",
+                        {"start": caff(a), "ops": ops})
+                break
+            cur_c, cur_a = res_c, res_a
+            x = rng.integers(-5, 6, cur_c.ndims[0])
+            if cur_c.function_domain != cur_a.function_domain or cur_c.function_range.coord_names != cur_a.function_range.coord_names \
+                    or not np.array_equal(np.asarray(cur_c(x), dtype=float), np.asarray(call(cur_a, x), dtype=float)):
+                ck.fail("cmap/%s/differs-from-affine-path" % kind,
+                        "a general CoordinateMap and the equivalent AffineTransform give different results after the same operations",
+                        {"start": caff(a), "ops": ops, "x": [int(v) for v in x]})
+                break
+        if not ops:
+            continue
+        ck.count(("cmap", tuple(ops)), nontrivial=not refused, bucket="cmap:" + ("refused" if refused else "ok"))
+        if refused:
+            terms.append("cm_chain_agrees %s %s [] None" % (caff(a), clist(["(%s)" % o for o in ops])))
+        else:
+            x = rng.integers(-6, 7, cur_c.ndims[0])
+            y = cur_c(x)
+            if not is_int_matrix(np.atleast_2d(y)):
+                continue
+            terms.append("cm_chain_agrees %s %s %s (Some (%s, %s, %s))" % (
+                caff(a), clist(["(%s)" % o for o in ops]), czl(x), cstrl(cur_c.function_domain.coord_names),
+                cstrl(cur_c.function_range.coord_names), czl([int(v) for v in y])))
+            inv = cur_c.inverse()
+            if inv is not None:
+                xb = inv(cur_c(x))
+                if not np.allclose(xb, x):
+                    ck.fail("cmap/inverse-round-trip", "inverse of a CoordinateMap does not undo it", {"start": caff(a), "ops": ops})
+        metas.append({"start": caff(a), "ops": ops})
+        if case < 2:
+            ck.sample({"cmap_chain": ops})
+    if ck.build.ok:
+        res = ck.coq_bools(HDR, terms, shard=120, name="cmaps")
+        ck.cov["traces_validated_against_impl"] += len(res)
+        for ok, m in zip(res, metas):
+            if not ok:
+                ck.fail("model-vs-impl/cmap-chain", "CMap model and implementation disagree on a chain of CoordinateMap operations", m)
+                break
+    ck.section("cmaps", chains=len(terms))
+
+
 def run(ck):
     ck.cov["rule"] = ("random programs (length 1..8) over 3..5 random integer AffineTransforms (dims 1..4/5, unimodular/rank-deficient, "
                       "int64 and float64 systems, colliding names), ~22% of steps deliberately ill-typed; a case = one program step; "
@@ -389,5 +541,6 @@ def run(ck):
                 ck.fail("model-vs-impl/apply", "model and implementation disagree on a point evaluation", {"op": m[0]})
                 break
     ck.section("programs", programs=len(terms), point_evaluations=len(pterms))
+    cmaps(ck)
     ck.trust.append("oracles: numpy.linalg.inv (candidate inverse is an input of the model, which re-checks shape/bottom row); "
                     "nibabel.io_orientation via io_axis_indices (its (in,out) pair is an input of the model's drop_io_dim)")
